@@ -58,8 +58,11 @@ def main():
             rep.cov["axioms"] = {n: per.get(n) for n in thms[:200]}
             if tier == "thorough":
                 t0 = time.time()
-                with Lock():
-                    rc, out = sh(["lake", "env", "leanchecker", *targets], cwd=LEAN, timeout=3000)
+                rc, out = 0, ""
+                for tg in targets:      # one run per property module (modules of different cores need not be importable together)
+                    with Lock():
+                        r1, o1 = sh(["lake", "env", "leanchecker", tg], cwd=LEAN, timeout=3000)
+                    rc, out = max(rc, r1), out + o1[-200:]
                 rep.cov["leanchecker"] = {"rc": rc, "wall_s": round(time.time() - t0, 1), "tail": out[-300:]}
                 if rc != 0:
                     rep.tie_broken("leanchecker", "proof-obligation", out[-600:])
@@ -81,8 +84,10 @@ def main():
     try:
         mod.run(rep, tier, rng, drv)
     except Exception as e:
+        # a crash of the generator / runner itself (exceptions of the code under test are caught per case and compared) is an
+        # infrastructure problem of the check, never a violation: exit 2
         print(f"INFRA: harness crashed: {type(e).__name__}: {e}\n{traceback.format_exc()}", file=sys.stderr)
-        rep.tie_broken("harness", "correspondence", f"harness crashed: {type(e).__name__}: {e}")
+        sys.exit(2)
 
     checker = f"cd lean && lake build {' '.join(targets)} && #print axioms on {obligations} property theorems (harness/common.py audit_axioms)"
     rc = rep.finish("proof", max(obligations, 1), discharged, checker,
